@@ -508,6 +508,12 @@ def gen(n):
     r = Res('g%d' % n)
     yield n
     yield n + 1
+def drain(pool):
+    # the resources hang below `pool`, they are no variables of this function: each is released the moment it leaves the pool
+    while pool:
+        pool.pop()
+        LOG.append('popped, %d left' % len(pool))
+    return len(pool)
 KEEP = []
 def scoped():
     p = Plain()
@@ -531,6 +537,8 @@ def main():
         LOG.append('after gen')
         scoped()
         LOG.append('after scoped')
+        drain([Res('p0'), Res('p1')])
+        LOG.append('after drain')
     finally:
         if was:
             gc.enable()
